@@ -31,6 +31,7 @@ def run(project, rep):
     rep.run(S.s_r6_constraints, schema, rep)
     from .. import rules_purity as E
     rep.run(E.e_r7_reiterable_class_tables, project, rep)
+    rep.run(S.s_r10_per_class_tables, schema, rep)
     rep.run(F.f_r4_order, schema, rep)
     rep.run(F.f_r5_counting, schema, rep)
     rep.run(T.t_r2, project, rep)
